@@ -440,8 +440,16 @@ func cliCheck(res *sched.Result, w *cliWorld) (finds []explore.Finding, outcome 
 				}
 			}
 		}
+		refused := func(d []byte) bool { // the (user-supplied) agent refused this very datagram: nobody gets it
+			for _, q := range w.log {
+				if q.Kind == "process-refused" && bytes.Equal(q.Data, d) {
+					return true
+				}
+			}
+			return false
+		}
 		for pos, r := range w.log {
-			if r.Kind != "deliver" || pos > firstClose || !decodes(w.delivered[r.N]) {
+			if r.Kind != "deliver" || pos > firstClose || !decodes(w.delivered[r.N]) || refused(w.delivered[r.N]) {
 				continue
 			}
 			inflight := -1
